@@ -10,6 +10,8 @@ import Driver.GroupIO
 import Driver.ConsumeIO
 import Driver.ScramIO
 import Driver.CodecIO
+import Driver.TxnIO
+import Driver.TxnTraceIO
 /-!
 Line-protocol driver: one operation per line on stdin, one canonical line per operation on stdout.
 The first token selects the model; unknown or malformed lines print `bad-op` (never a default).
@@ -34,6 +36,8 @@ def dispatch (toks : List String) : Option String :=
   | "c13" :: rest => ConsumeIO.handle13 rest
   | "c18" :: rest => ScramIO.handle rest
   | "c09" :: rest => CodecIO.handle rest
+  | "c16" :: rest => TxnIO.handle rest
+  | "c07" :: rest => TxnTraceIO.handle rest
   | _ => none
 
 partial def loop (h : IO.FS.Stream) (out : IO.FS.Stream) : IO Unit := do
